@@ -460,13 +460,113 @@ func dashJoin(ss []string) string {
 
 var _ = prng.New
 
+// survivalScript: the directed scenario behind the safe-mode clause — take every kind of value out of
+// a root result and out of a nested result, close, let the pooled objects be recycled by further decodes
+// that call the same accessors, and look at the values taken out before.
+func survivalScript(c *fw.Ctx) {
+	r := c.Rng
+	mk := func() (nums []uint64, strs [][]byte) {
+		for i := 1 + r.Intn(4); i > 0; i-- {
+			nums = append(nums, r.U64Interesting()>>uint(r.Intn(40)))
+		}
+		for i := 1 + r.Intn(3); i > 0; i-- {
+			strs = append(strs, asciiBytes(r, 1+r.Intn(6)))
+		}
+		return
+	}
+	inner := func(nums []uint64, strs [][]byte) []byte {
+		var b []byte
+		for _, n := range nums {
+			b = protowire.AppendTag(b, 1, protowire.VarintType)
+			b = protowire.AppendVarint(b, n)
+		}
+		for _, s := range strs {
+			b = protowire.AppendTag(b, 2, protowire.BytesType)
+			b = protowire.AppendBytes(b, s)
+		}
+		return b
+	}
+	outer := func() []byte {
+		n, s := mk()
+		in := inner(n, s)
+		b := append([]byte{}, in...) // the same two fields at the root
+		b = protowire.AppendTag(b, 3, protowire.BytesType)
+		return protowire.AppendBytes(b, in)
+	}
+	def := lazyproto.NewDef(1, 2)
+	def.NestedTag(3, 1, 2)
+	opts := []lazyproto.Option{lazyproto.WithMode(csproto.DecoderModeSafe)}
+	if k := r.Intn(4); k > 0 {
+		opts = append(opts, lazyproto.WithMaxBufferSize([]int{0, 1, 64}[k-1]))
+	}
+	dec, err := lazyproto.NewDecoder(def, opts...)
+	if err != nil {
+		return
+	}
+	type heldT struct {
+		what string
+		live interface{}
+		snap string
+	}
+	var held []heldT
+	take := func(res *lazyproto.DecodeResult, where string) {
+		if fd, err := res.FieldData(1); err == nil {
+			if v, err := fd.Int64Values(); err == nil {
+				held = append(held, heldT{where + " Int64Values(1)", v, fmt.Sprint(v)})
+			}
+			if v, err := fd.UInt64Values(); err == nil {
+				held = append(held, heldT{where + " UInt64Values(1)", v, fmt.Sprint(v)})
+			}
+			if v, err := fd.BoolValues(); err == nil {
+				held = append(held, heldT{where + " BoolValues(1)", v, fmt.Sprint(v)})
+			}
+		}
+		if fd, err := res.FieldData(2); err == nil {
+			if v, err := fd.StringValues(); err == nil {
+				held = append(held, heldT{where + " StringValues(2)", v, fmt.Sprint(v)})
+			}
+			if v, err := fd.BytesValues(); err == nil {
+				held = append(held, heldT{where + " BytesValues(2)", v, fmt.Sprint(v)})
+			}
+			if v, err := fd.BytesValue(); err == nil {
+				held = append(held, heldT{where + " BytesValue(2)", v, fmt.Sprint(v)})
+			}
+		}
+	}
+	outcome := "ok"
+	if p := safely(func() {
+		for round := 0; round < 3; round++ {
+			res, err := dec.Decode(outer())
+			if err != nil || res == nil {
+				return
+			}
+			take(res, fmt.Sprintf("root result of decode %d", round))
+			if nr, err := res.NestedResult(3); err == nil && nr != nil {
+				take(nr, fmt.Sprintf("nested result of decode %d", round))
+			}
+			res.Close()
+		}
+	}); p != "" {
+		outcome = "panic"
+		c.Violate(fw.Violation{Stream: "survival", Signature: "pool/survival-panic", What: "the decode/access/close script panicked", Got: p})
+	}
+	for _, h := range held {
+		if fmt.Sprint(h.live) != h.snap {
+			outcome = "changed"
+			c.Violate(fw.Violation{Stream: "survival", Signature: "pool/safe-mode-survival", What: "a value handed out in safe mode changed after Close / later decodes: " + h.what, Expected: h.snap, Got: fmt.Sprint(h.live)})
+			break
+		}
+	}
+	c.Count("survival", fmt.Sprint(len(held), held), outcome, len(held), len(held) > 0)
+}
+
 func runC14(c *fw.Ctx) int {
 	c.Facts = extractFacts(c)
 	c.Prove("C14")
 	// make reuse through sync.Pool near-certain: one P, no GC while histories run
 	oldProcs := runtime.GOMAXPROCS(1)
 	oldGC := debug.SetGCPercent(-1)
-	n := 400
+	n := 1000
 	if c.Tier == "thorough" {
 		n = 20000
 	}
@@ -478,6 +578,13 @@ func runC14(c *fw.Ctx) int {
 			runtime.GC()
 			debug.SetGCPercent(-1)
 		}
+	}
+	rounds := 200
+	if c.Tier == "thorough" {
+		rounds = 5000
+	}
+	for i := 0; i < rounds; i++ {
+		survivalScript(c)
 	}
 	debug.SetGCPercent(oldGC)
 	runtime.GOMAXPROCS(oldProcs)
